@@ -1,16 +1,19 @@
 import NetVerif.Driver.H2Common
+import NetVerif.Model.H2Meta
 /-! Line-protocol driver for C07 (Framer.ReadFrame on arbitrary byte streams).
 `reset <maxRead> <meta> <maxHeaderList> <stream>` installs a Framer over a byte stream;
 `read [c=<closeErr> d=<e><a>:<name>.<value>,… …]` is one `ReadFrame` call; in
 ReadMetaHeaders mode the `d=` tokens carry the abstract HPACK decoder outcome of each header
 block fragment consumed by that call (see `FragDec` in the model) and `c=` that of `Close`. -/
-open NetVerif.Driver NetVerif.Driver.H2 NetVerif.Model.H2Frame
+open NetVerif.Driver NetVerif.Driver.H2 NetVerif.Model.H2Frame NetVerif.Model
 
 structure C07State where
   fr : Framer := newFramer
   useMeta : Bool := false
   mhls : Nat := 0
   bs : List Nat := []
+  /-- the Framer's `ReadMetaHeaders` decoder (`hpack.NewDecoder(4096, nil)`), decoded in Lean -/
+  hdec : Hpack.Decoder := Hpack.Decoder.new 4096
 
 def rawHex (s : String) : Option (List Nat) := bytesOfHexChars s.toList
 
@@ -64,14 +67,22 @@ def c07Step (st : C07State) (line : String) : C07State × String :=
   | ["reset", maxRead, um, mhls, stream] =>
     match parseNat maxRead, parseBool um, parseNat mhls, parsePayload stream with
     | some maxRead, some um, some mhls, some bs =>
-      ({ fr := { maxReadSize := setMaxReadFrameSize maxRead }, useMeta := um, mhls := mhls, bs := bs }, "ok")
+      ({ fr := { maxReadSize := setMaxReadFrameSize maxRead }, useMeta := um, mhls := mhls, bs := bs,
+         hdec := Hpack.Decoder.new 4096 }, "ok")
     | _, _, _, _ => (st, "bad-op")
   | "read" :: aux =>
     if st.useMeta then
       match parseAux aux {} with
       | some orc =>
-        let r := readMeta st.fr st.mhls orc st.bs
-        ({ st with fr := r.fr, bs := r.rest }, showMRead r.res)
+        -- concrete: the header block bytes decoded by the HPACK model; abstract: the decoder outcome
+        -- observed by the harness fed to `readMeta`. Both must give the implementation's result.
+        let rc := H2Meta.readMetaH st.fr st.mhls st.hdec st.bs
+        let ra := readMeta st.fr st.mhls orc st.bs
+        let out := showMRead rc.res
+        let outA := showMRead ra.res
+        ({ st with fr := rc.fr, bs := rc.rest, hdec := rc.hdec },
+         if out == outA && rc.rest.length == ra.rest.length then out
+         else s!"models-disagree concrete=[{out}] abstract=[{outA}]")
       | none => (st, "bad-op")
     else if aux.isEmpty then
       let r := readFrame st.fr st.bs
